@@ -173,6 +173,7 @@ structure ExprGood (f : Nat) : Prop where
   attrs : ∀ e ts, 8 * ts.length + 1 ≤ f → Good (· ≤ ts.length) (parseAttrs f e ts)
   map : ∀ ts, 8 * ts.length + 6 ≤ f → Good (· < ts.length) (parseMap f ts)
   mapLoop : ∀ ts, 8 * ts.length + 5 ≤ f → Good (· < ts.length) (parseMapLoop f ts)
+  subs : ∀ e ts, 8 * ts.length + 1 ≤ f → Good (· ≤ ts.length) (parseSubs f e ts)
 
 variable {f : Nat}
 
@@ -311,6 +312,22 @@ theorem suffix_step (ih : ExprGood f) (e ts) (h : 8 * ts.length + 2 ≤ f + 1) :
       intro k hk; lomega
   · exact Good.pure (Nat.le_refl _)
 
+theorem subs_step (ih : ExprGood f) (e ts) (h : 8 * ts.length + 1 ≤ f + 1) :
+    Good (· ≤ ts.length) (parseSubs (f+1) e ts) := by
+  rw [parseSubs.eq_def]; dsimp only
+  split
+  · rename_i t r
+    refine Good.ite (fun _ => ?_) (fun _ => Good.pure (Nat.le_refl _))
+    refine Good.bind (ih.expr _ (by lomega)) ?_
+    rintro ⟨i, r1⟩ hr1
+    dsimp only
+    split
+    · refine Good.ite (fun _ => ?_) (fun _ => Good.perr _)
+      refine Good.mono (ih.subs _ _ (by lomega)) ?_
+      intro k hk; lomega
+    · exact Good.perr _
+  · exact Good.pure (Nat.le_refl _)
+
 theorem filters_step (ih : ExprGood f) (e ts) (h : 8 * ts.length + 1 ≤ f + 1) :
     Good (fun k => k ≤ ts.length ∧ (pipeHead ts = true → k < ts.length)) (parseFilters (f+1) e ts) := by
   rw [parseFilters.eq_def]; dsimp only
@@ -403,11 +420,23 @@ theorem simple_step (ih : ExprGood f) (ts) (h : 8 * ts.length + 1 ≤ f + 1) :
     rintro ⟨e, r'⟩ hr
     exact hg e r' hr
   refine Good.ite (fun _ => ?_) (fun _ => ?_)
-  · refine hsimple _ (fun e r' hr => ?_); apply Good.pure; lomega
+  · refine hsimple _ (fun e r' hr => ?_)
+    dsimp only
+    refine Good.bind (ih.subs _ _ (by lomega)) ?_
+    rintro ⟨e', r''⟩ hr2
+    apply Good.pure; lomega
   refine Good.ite (fun _ => ?_) (fun _ => ?_)
-  · refine hsimple _ (fun e r' hr => ?_); apply Good.pure; lomega
+  · refine hsimple _ (fun e r' hr => ?_)
+    dsimp only
+    refine Good.bind (ih.subs _ _ (by lomega)) ?_
+    rintro ⟨e', r''⟩ hr2
+    apply Good.pure; lomega
   refine Good.ite (fun _ => ?_) (fun _ => ?_)
-  · refine hsimple _ (fun e r' hr => ?_); apply Good.pure; lomega
+  · refine hsimple _ (fun e r' hr => ?_)
+    dsimp only
+    refine Good.bind (ih.subs _ _ (by lomega)) ?_
+    rintro ⟨e', r''⟩ hr2
+    apply Good.pure; lomega
   refine Good.ite (fun _ => ?_) (fun _ => ?_)
   · apply Good.pure; lomega
   refine Good.ite (fun _ => ?_) (fun _ => ?_)
@@ -450,7 +479,7 @@ theorem exprGood : ∀ f, ExprGood f
     have ih := exprGood f
     ⟨expr_step ih, cond_step ih, bp_step ih, loop_step ih, test_step ih, args_step ih, argsLoop_step ih,
      operand_step ih, suffix_step ih, filters_step ih, simple_step ih, attrs_step ih, map_step ih,
-     mapLoop_step ih⟩
+     mapLoop_step ih, subs_step ih⟩
 
 /-! ## the expression parser: more fuel never changes a non-fuel result -/
 
@@ -470,6 +499,7 @@ structure ExprMono (f : Nat) : Prop where
   attrs : ∀ e ts, Le (parseAttrs f e ts) (parseAttrs (f+1) e ts)
   map : ∀ ts, Le (parseMap f ts) (parseMap (f+1) ts)
   mapLoop : ∀ ts, Le (parseMapLoop f ts) (parseMapLoop (f+1) ts)
+  subs : ∀ e ts, Le (parseSubs f e ts) (parseSubs (f+1) e ts)
 
 macro "le_auto" ih:ident : tactic => `(tactic| repeat' first
   | exact Le.refl (pure _)
@@ -477,7 +507,7 @@ macro "le_auto" ih:ident : tactic => `(tactic| repeat' first
   | exact Le.refl (Except.error _)
   | exact ($ih).expr _ | exact ($ih).cond _ _ | exact ($ih).bp _ _ | exact ($ih).loop _ _ _
   | exact ($ih).test _ _ _ _ | exact ($ih).args _ _ _ | exact ($ih).argsLoop _ _ _
-  | exact ($ih).operand _ | exact ($ih).suffix _ _ | exact ($ih).filters _ _ | exact ($ih).simple _
+  | exact ($ih).operand _ | exact ($ih).suffix _ _ | exact ($ih).subs _ _ | exact ($ih).filters _ _ | exact ($ih).simple _
   | exact ($ih).attrs _ _ | exact ($ih).map _ | exact ($ih).mapLoop _
   | refine Le.ite ?_ ?_
   | (refine Le.bind ?_ (fun _ => ?_))
@@ -519,6 +549,10 @@ theorem suffix_mono (ih : ExprMono f) (e ts) : Le (parseSuffix (f+1) e ts) (pars
   rw [parseSuffix.eq_def (f+1), parseSuffix.eq_def (f+1+1)]; dsimp only
   le_auto ih
 
+theorem subs_mono (ih : ExprMono f) (e ts) : Le (parseSubs (f+1) e ts) (parseSubs (f+1+1) e ts) := by
+  rw [parseSubs.eq_def (f+1), parseSubs.eq_def (f+1+1)]; dsimp only
+  le_auto ih
+
 theorem filters_mono (ih : ExprMono f) (e ts) : Le (parseFilters (f+1) e ts) (parseFilters (f+1+1) e ts) := by
   rw [parseFilters.eq_def (f+1), parseFilters.eq_def (f+1+1)]; dsimp only
   le_auto ih
@@ -543,7 +577,7 @@ theorem exprMono : ∀ f, ExprMono f
   | 0 => by constructor <;> intros <;> exact Le.fuel _
   | f+1 =>
     have ih := exprMono f
-    ⟨expr_mono ih, cond_mono ih, bp_mono ih, loop_mono ih, test_mono ih, args_mono ih, argsLoop_mono ih, operand_mono ih, suffix_mono ih, filters_mono ih, simple_mono ih, attrs_mono ih, map_mono ih, mapLoop_mono ih⟩
+    ⟨expr_mono ih, cond_mono ih, bp_mono ih, loop_mono ih, test_mono ih, args_mono ih, argsLoop_mono ih, operand_mono ih, suffix_mono ih, filters_mono ih, simple_mono ih, attrs_mono ih, map_mono ih, mapLoop_mono ih, subs_mono ih⟩
 
 /-! ## the template parser: fuel `tokens + 1` is enough for every function -/
 
@@ -847,6 +881,7 @@ structure ExprStable (f f' : Nat) : Prop where
   attrs : ∀ e ts, parseAttrs f e ts ≠ .error .fuel → parseAttrs f' e ts = parseAttrs f e ts
   map : ∀ ts, parseMap f ts ≠ .error .fuel → parseMap f' ts = parseMap f ts
   mapLoop : ∀ ts, parseMapLoop f ts ≠ .error .fuel → parseMapLoop f' ts = parseMapLoop f ts
+  subs : ∀ e ts, parseSubs f e ts ≠ .error .fuel → parseSubs f' e ts = parseSubs f e ts
 
 theorem exprStable {f f' : Nat} (h : f ≤ f') : ExprStable f f' :=
   ⟨fun ts hne => Le.iter (fun k => parseExpression k ts) (fun k => (exprMono k).expr ts) h hne,
@@ -862,7 +897,8 @@ theorem exprStable {f f' : Nat} (h : f ≤ f') : ExprStable f f' :=
    fun ts hne => Le.iter (fun k => parseSimple k ts) (fun k => (exprMono k).simple ts) h hne,
    fun e ts hne => Le.iter (fun k => parseAttrs k e ts) (fun k => (exprMono k).attrs e ts) h hne,
    fun ts hne => Le.iter (fun k => parseMap k ts) (fun k => (exprMono k).map ts) h hne,
-   fun ts hne => Le.iter (fun k => parseMapLoop k ts) (fun k => (exprMono k).mapLoop ts) h hne⟩
+   fun ts hne => Le.iter (fun k => parseMapLoop k ts) (fun k => (exprMono k).mapLoop ts) h hne,
+   fun e ts hne => Le.iter (fun k => parseSubs k e ts) (fun k => (exprMono k).subs e ts) h hne⟩
 
 /-- every function of the block returns, with fuel `f' ≥ f`, what it returned with fuel `f`, unless that was the fuel error -/
 structure TplStable (f f' : Nat) : Prop where
